@@ -576,11 +576,20 @@ def legal_ncname(dom, s):
     return None
 
 
-def decide(nb, local_fn=None, bound=BOUND, legal=None):
+def reserved_xml_prefix(dom, s):
+    """None unless `s` starts with `xml` in any case: such prefixes are reserved (Namespaces in XML 1.0, section 3), `xml` itself is
+    bound to http://www.w3.org/XML/1998/namespace and writers do not declare it"""
+    if s[:3].lower() == "xml":
+        return f"the result {s!r} starts with `xml`, which is reserved: it continues with the reserved letters"
+    return None
+
+
+def decide(nb, local_fn=None, bound=BOUND, legal=None, extra_chars=""):
     """Returns (n_inputs, {kind: (input, output, reason)}, n_classes): the shortest counterexample of each kind of illegality.
     `legal(domain, text)` judges a result (default: a Rust identifier)."""
     chars, ranges, strs = set(), set(), set()
     collect_literals(nb, chars, ranges, strs)
+    chars |= set(extra_chars)
     seen = set()
 
     def lf(path):
